@@ -9,7 +9,7 @@ CHECKS = {
 }
 CHECKS["C11"]=dict(level="model_checking", ref="§C11",
    technique="explicit-state search over all partitions of elapsed time into tape steps 0..16 on the real Tap, decomposed at reload events, judged by an independent pulse decoder",
-   text="For each tape image every reachable state of the real tape state machine under every partition of time into process_clocks steps of 0..16 T is visited (tens of millions of states per run); on every edge transition the pulse must be the one the reference waveform expects and last between nominal and nominal+32 T, and the pulse list must decode (independent decoder) to exactly the TAP blocks with the stated pilot counts. Exhaustive over schedules for the listed tapes; tapes themselves are a small alphabet. System level: the real ROM loader runs in real time in the real Emulator with the tape playing and must give the same memory, IX, DE and carry as fast loading and RefLdBytes.",
+   text="For each tape image every reachable state of the real tape state machine under every partition of time into process_clocks steps of 0..16 T is visited (tens of millions of states per run); on every edge transition the pulse must be the one the reference waveform expects and last between nominal and nominal+32 T, and the pulse list must decode (independent decoder) to exactly the TAP blocks with the stated pilot counts. Exhaustive over schedules for the listed tapes; tapes themselves are a small alphabet. Machine level: seven polling programs in contended/uncontended RAM run while the tape plays and every pulse as well as the running total must stay within nominal..nominal+32 of emulated time. System level: the real ROM loader runs in real time in the real Emulator with the tape playing and must give the same memory, IX, DE and carry as fast loading and RefLdBytes.",
    note="Trusts hook H3 (Tap: Clone + verif_state). Decomposition at reload events is re-validated on every exit transition (state must equal the pre-pass state).")
 CHECKS["C12"]=dict(level="model_checking", ref="§C12",
    technique="explicit-state BFS over command histories on the real Tap in lock step with a reference deck (refinement mapping to the uninterrupted tape)",
@@ -45,7 +45,7 @@ CHECKS["C04"]=dict(level="model_checking", ref="§C04",
    note="Frame clock is placed with the hook verif_set_frame_clocks (assumes contention depends only on the clock value; C05 is the control without placing). RefULA = the formula in the property text.")
 CHECKS["C05"]=dict(level="model_checking", ref="§C05",
    technique="complete enumeration of the frame's T-states for the INT window plus lock-step execution of an enumerated program alphabet over whole frames against the reference machine",
-   text="An enabled interrupt is accepted at a boundary at T iff T<32 for every T of the frame on both machines (running and halted); all loop bodies of up to 2 (quick) / 3 (thorough) elements over a 17-element alphabet (HALT, LDIR, indexed 23-T op, EI, DI, OUT, NOP sleds hitting many residues), in contended/uncontended RAM, with IM 2 handlers of three lengths, run for 6/40 whole frames on the real Emulator without ever placing the clock and on RefZ80+RefULA: absolute T, PC and SP compared after every instruction (tens of millions of boundaries), interrupt counter at the end; emulate_frames(FrameCount(n)) emulates exactly n frames.",
+   text="An enabled interrupt is accepted at a boundary at T iff T<32 for every T of the frame on both machines (running and halted); all loop bodies of up to 2 (quick) / 3 (thorough) elements over a 17-element alphabet (HALT, LDIR, indexed 23-T op, EI, DI, OUT, NOP sleds hitting many residues), in contended/uncontended RAM, with IM 2 handlers of three lengths, run for 6/40 whole frames on the real Emulator without ever placing the clock and on RefZ80+RefULA: absolute T, PC and SP compared after every instruction (tens of millions of boundaries), interrupt counter at the end;  The INT window is also checked after frame ends reached by real execution: 4/13/23-T instructions straddling the frame end with every overrun 0..22 and fillers that put the first interrupt-enabled boundary on every T up to about 60.emulate_frames(FrameCount(n)) emulates exactly n frames.",
    note="Absolute time of the implementation uses the hook frame counter. Programs are an alphabet, not all programs.")
 CHECKS["C10"]=dict(level="model_checking", ref="§C10",
    technique="finite product enumeration of tapes x requests and request sequences through the real ROM trap, against a ROM-validated reference of LD-BYTES",
@@ -53,15 +53,15 @@ CHECKS["C10"]=dict(level="model_checking", ref="§C10",
    note="RefLdBytes is validated on every run against the genuine 48K ROM routine executed on RefZ80 with RefTape's ideal waveform. Not judged: ROM call frames just below SP; files truncated inside a block.")
 CHECKS["C07"]=dict(level="model_checking", ref="§C07",
    technique="finite product enumeration over all 65536 port addresses x read/write x device configurations, executed by the emulated CPU, plus all T-states for the floating bus",
-   text="Every one of the 65536 port addresses is read (IN A,(C)) and written (OUT (C),A) by the emulated CPU on 20 (quick) / 32 (thorough) configurations of machine x Kempston x mouse x extender claim set; each device answers with a distinct byte, write effects are observed on border, paging latch, AY read-back and the extender log; a three-valued claim table transcribed from the statement decides which accesses are judged (exactly one claimant, none possible). The floating bus is read at every T of the frame on 48K, 128K and 128K with the shadow screen; EAR on bit 6 follows the tape level.",
+   text="Every one of the 65536 port addresses is read (IN A,(C)) and written (OUT (C),A) by the emulated CPU on 20 (quick) / 32 (thorough) configurations of machine x Kempston x mouse x extender claim set; each device answers with a distinct byte, write effects are observed on border, paging latch, AY read-back and the extender log; a three-valued claim table transcribed from the statement decides which accesses are judged (exactly one claimant, none possible). The floating bus is read at every T of the frame on 48K, 128K and 128K with the shadow screen: FF outside the fetch windows, only bytes of the displayed bank's current line inside, and every one of the 64 bytes the ULA fetches for a line must be seen at some T; EAR on bit 6 follows the tape level.",
    note="Not judged: ports selecting two devices, the wider A0=1/A5=0 family for the mouse, phase of the floating bus inside the fetch window (+-8 T).")
 CHECKS["C08"]=dict(level="exploration", ref="§C08",
    technique="finite product enumeration of screen contents x writers x configurations with a pixel-exact reference decode; every store time around the ULA fetch for the beam clause",
-   text="Latin-square screen contents (every one of the 6912 addresses meets every byte value across the 256 frames of the thorough tier, 32 in quick) and 26 address-line frames are put into display memory by eight writers (LDIR, CPU store loop, poke, tape fast load through the ROM, SNA, SZX stored/zlib, SCR) on four machine/screen-bank configurations; after two unchanged frames all 49152 pixels must equal the standard decode of the displayed bank; FLASH period over 48 frames, paging bit 3 switched between frames, and for picture lines x 3 columns every store time from 90 T before to 70 T after the ULA fetch decides current/next frame.",
+   text="Latin-square screen contents (every one of the 6912 addresses meets every byte value across the 256 frames of the thorough tier, 32 in quick) and 26 address-line frames are put into display memory by eight writers (LDIR, CPU store loop, poke, tape fast load through the ROM, SNA, SZX stored/zlib, SCR) on four machine/screen-bank configurations; after two unchanged frames all 49152 pixels must equal the standard decode of the displayed bank; FLASH period over 48 frames, paging bit 3 switched between frames (also right after SNA/SZX loads with pictures in both banks), and for picture lines x 3 columns every store time from 90 T before to 70 T after the ULA fetch decides current/next frame, once with the clock placed and once with a free-running CPU idling to the store time.",
    note="Exploration level: contents are an arranged cover, not all 2^55296 screens; cell-locality of the decode is the argument for the arrangement. Not judged: first FLASH phase, +-16 T around the fetch.")
 CHECKS["C09"]=dict(level="exploration", ref="§C09",
    technique="finite product enumeration of write times (every T of the frame, all pairs inside a line) on the real Emulator against a beam-position model of the border buffer",
-   text="An OUT to port FE executed by the emulated CPU at every T of the frame in thorough (five complete lines and both frame ends in quick), every ordered pair of OUTs inside one line at three line positions, writes straddling the frame wrap, write-free frames and snapshot borders of all 8 colours on both machines; every border pixel of the completed 320x240 buffer farther than 8 T from the I/O cycle of a write must show the colour last written before the beam reached it, and border_color() must report the last write.",
+   text="An OUT to an even port (six addresses incl. paging- and AY-overlapping ones) executed by the emulated CPU at every T of the frame in thorough (five complete lines and both frame ends in quick), every ordered pair of OUTs inside one line at three line positions, writes straddling the frame wrap, two-frame histories with repeated colours, write-free frames and snapshot borders of all 8 colours on both machines; every border pixel of the completed 320x240 buffer farther than 8 T from the I/O cycle of a write must show the colour last written before the beam reached it, and border_color() must report the last write.",
    note="Exploration level: sequences of more than two writes per frame are not enumerated. Frame clock placed through the hook.")
 CHECKS["C19"]=dict(level="exploration", ref="§C19",
    technique="finite product enumeration of sample rates x machines x toggle times (every T of the frame) x volumes, and all 2^6 drain schedules",
@@ -77,7 +77,7 @@ CHECKS["C14"]=dict(level="exploration", ref="§C14",
    note="Exploration level: states are a structured alphabet (6 quick / 30 thorough variants per machine). Writers follow the published layouts. Not judged: which HALTED PC convention a file uses; items a format does not carry.")
 CHECKS["C15"]=dict(level="fault_enumeration", ref="§C15",
    technique="exhaustive input-family and asset-fault enumeration on every loader entry point with panic, hang, allocation and asset-call monitors",
-   text="Every loader entry point (SNA, SZX, TAP incl. playing and fast-load requests, SCR, ROM set, gzip-wrapped SNA, VTX) on both machines is driven with: all byte strings up to length 2 (quick: all of length <=1 and a structured quarter-thousand of length 2) and short alphabet strings; every prefix of every seed file (stride in quick for the big ones); boundary values of every structural field alone and in all pairs; every single-byte substitution in header regions plus a stride through the data; an asset fault of each kind {Err, one-byte short read, Ok(0), seek failure} at every call index (all pairs in thorough) and chunked reads. A case fails on a panic, on not returning within the watchdog limit, on exceeding the asset-call budget, on a single allocation out of proportion to the input, or when the emulator cannot emulate further frames afterwards.",
+   text="Every loader entry point (SNA, SZX, TAP incl. playing and fast-load requests, SCR, ROM set, gzip-wrapped SNA, VTX) on both machines is driven with: all byte strings up to length 2 (quick: all of length <=1 and a structured quarter-thousand of length 2) and short alphabet strings; every prefix of every seed file (stride in quick for the big ones); boundary values of every structural field alone and in all pairs; every single-byte substitution in header regions plus a stride through the data; an asset fault of each kind {Err, one-byte short read, Ok(0), seek failure} at every call index (all pairs in thorough) and chunked reads. A structure-aware family offers SZX RAMP chunks with well-formed stored/zlib page data of sizes 0..200000 and valid/invalid page numbers. A case fails on a panic, on not returning within the watchdog limit, on exceeding the asset-call budget, on a single allocation out of proportion to the input, or when the emulator cannot emulate further frames afterwards.",
    note="Four exhaustive families, not all strings up to 160 KiB. Hung cases are detected by an in-process watchdog (thread abandoned and replaced). Not judged: vtx::Player.")
 CHECKS["C16"]=dict(level="exploration", ref="§C16",
    technique="schedule enumeration (all compositions of K frames into calls, deviation-bounded stopwatch answers, breakpoint subsets, all drain patterns, asset implementations) with a differential digest oracle",
